@@ -41,6 +41,31 @@ Proof. exact K4_refuted. Qed.
 Theorem C15_K5_refuted : exists I s d, refutes I s d VK5.
 Proof. exact K5_refuted. Qed.
 
+(** Semantics of the cut rows: in every feasible point of the exact row system, if the blocker [(h, bsz)]
+    of a cut of batch [b] is open (unbounded, or fewer than [bsz] tasks of [h] counted - placements and
+    reservations), then on every worker where [h] may run and whose gap is positive at most
+    [cut + gap] tasks of [b]'s class are placed. *)
+Theorem C15_cut_semantics : forall I bs m s b c h bsz w g,
+  milp_of I bs = Ok m -> feasible m s = true ->
+  In b bs -> count_vars I bs (b_rq b) <> [] -> In c (b_cuts b) -> In (h, bsz) (c_blockers c) ->
+  blocker_open I bs s (h, bsz) = true ->
+  In w (i_workers I) -> capable I w h = true -> gap I w h (b_rq b) = Ok g -> (0 < g)%N ->
+  (placed I bs s w (b_rq b) <= c_size c + g)%N.
+Proof. exact cut_semantics_gap. Qed.
+
+(** C05, row-system half (used by the cluster component): a feasible point of the row system, turned
+    into a dispatch accepted by [mapping_ok], never overbooks a worker, and tasks are only placed where
+    the request fits the free resources, is not blocked and the worker has enough remaining time. *)
+Theorem C05_feasible_no_overbook : forall I bs m s d,
+  inst_wf I ->
+  create_task_batches I = Ok bs -> milp_of I bs = Ok m -> feasible m s = true -> mapping_ok I bs s d = true ->
+  forall w, In w (i_workers I) ->
+    (exists v, free_after I d w = Some v
+               /\ forall r, rv_get v r = (rv_get (w_free w) r - demand I (rqs_on I d (w_id w)) r)%N)
+    /\ (forall r, (demand I (rqs_on I d (w_id w)) r <= rv_get (w_free w) r)%N)
+    /\ (forall rq, In rq (rqs_on I d (w_id w)) -> placeable I w rq = true).
+Proof. exact C05_feasible_no_overbook_thm. Qed.
+
 Check C15_priority_order_encoding : forall p q : Z,
   (- 2 ^ 31 <= p < 2 ^ 31)%Z -> (- 2 ^ 31 <= q < 2 ^ 31)%Z ->
   ((p < q)%Z <-> (from_user_priority p < from_user_priority q)%N).
@@ -52,3 +77,5 @@ Print Assumptions C15_K2_refuted.
 Print Assumptions C15_K3_refuted.
 Print Assumptions C15_K4_refuted.
 Print Assumptions C15_K5_refuted.
+Print Assumptions C15_cut_semantics.
+Print Assumptions C05_feasible_no_overbook.
